@@ -10,8 +10,8 @@ CHECKS = {
  "C01": ("generated concurrent scenarios in a deterministic virtual-time simulation of the real rsactor code; history invariant over uniquely tagged messages (handled <=1; rejected never; accepted-before-stop/drop exactly once before on_stop; nothing pending on a live idle actor at quiescence); plus real-thread race experiments (burst of senders released together, burst against an actor parked behind a gate, last handle dropped on another thread): accepted tells handled exactly once, rejected ones never", "5/C01"),
  "C02": ("generated multi-sender scenarios on capacity 1-3 mailboxes; oracle: no inversion between real-time order of completed sends and handler-entry order; stop() position in the same order; plus real-thread experiments: threads stopping the same actor at the same instant and then sending (nothing sent after an own stop() returned Ok is handled; tells accepted before any stop() are), bursts of senders (per-sender order)", "5/C02"),
  "C03": ("generated concurrent askers against actors ending by every cause; oracle: reply value carries request id + per-handler nonce that must match the trace; ask_join vs scripted job outcome; no operation pending on an ended actor at quiescence; later sends fail at once; plus a generated real-thread experiment (4 lanes x streams of asks from 1-12 askers straddling the moment the actor ends by panic / stop / kill / last drop: every ask must return)", "5/C03"),
- "C04": ("generated termination causes x hook outcomes x phases; oracle: per-actor regular language over hook events, on_stop exactly-once rules, killed flag iff a kill signal could have been consumed; plus real-thread drop / stop races (last handle dropped on another thread, several threads stopping at once: on_stop exactly once with killed=false)", "5/C04"),
- "C05": ("same generator as C04; oracle: expected ActorResult recomputed from the hook trace alone (phase, killed, error tag, presence and state of the instance, panic payload) + accessor laws on every real result; plus real-thread drop / stop races (result Completed{killed:false} when nobody killed)", "5/C05"),
+ "C04": ("generated termination causes x hook outcomes x phases; oracle: per-actor regular language over hook events, on_stop exactly-once rules, killed flag iff a kill signal could have been consumed; plus real-thread drop / stop races (last handle dropped on another thread, several threads stopping at once: on_stop exactly once with killed=false; threads killing an actor nobody stops: on_stop(true) exactly once)", "5/C04"),
+ "C05": ("same generator as C04; oracle: expected ActorResult recomputed from the hook trace alone (phase, killed, error tag, presence and state of the instance, panic payload) + accessor laws on every real result; plus real-thread drop / stop races (result Completed{killed:false} when nobody killed, Completed{killed:true} when only kill() ended it)", "5/C05"),
  "C06": ("generated kill() instants with 0-64 queued messages in every actor phase; oracle: kill never fails/blocks, <=1 handler entry after kill returned, on_stop(killed=true) with no idle gap, result killed=true, queued asks fail (once the hook in progress finishes); plus a generated real-thread experiment (2-6 OS threads calling kill() on one actor at the same instant, kill() hammered while the actor is stopped and joined: every call Ok, JoinHandle resolves, killed=true)", "5/C06"),
  "C07": ("generated clone/drop/downgrade/upgrade/erase histories; model = number of strong handles the harness holds; oracle at quiescence: ended gracefully iff unreferenced or stopped; still serving otherwise (probe ask/tell); plus a drop-race experiment (last handle of an actor with a re-arming on_run dropped on another thread: on_stop(false) exactly once, Completed{killed:false}) and a real-thread supplement (multi_thread runtime, OS-thread clients): a referenced, never-stopped actor has not ended and does not refuse probes; after the epilogue - stop() on every other actor, every handle dropped - each idle actor has ended gracefully", "5/C07"),
  "C08": ("generated on_run scripts with message arrivals around their await points; oracle at every on_run progress event: no accepted-unhandled message, no returned kill; Ok(true) re-arms, Ok(false) silences for good without ending the actor, Err -> on_stop(false); plus a real-thread re-arm experiment (ticking on_run; after every message sent from outside the runtime the ticks must continue)", "5/C08"),
@@ -24,7 +24,7 @@ CHECKS.update({
  "C12": ("fault injection (panic / error in a generated hook invocation of one actor of a 2-4 actor system with peer asks/tells); every other monitor is applied to the whole system plus victim-specific checks, a fresh actor spawned afterwards, dead-letter accounting and (deadlock-detection build) wait-for-graph residue / mutex health; plus the real-thread ask-vs-end race restricted to the failing exit (handler panic): every ask issued around the failure returns", "5/C12"),
  "C13": ("generated operations against actors in every lifecycle state; dead-letter records captured by an in-process tracing subscriber are matched one-to-one (points-to-intervals matching) against failed operations: target id, message type name, reason <-> error kind, operation label; dead_letter_count() delta == number of failures; plus a generated real-thread experiment (2-16 OS threads x 50-450 failing operations each: counter delta == records == failures)", "5/C13"),
  "C14": ("generated ask topologies (cycles of length 1..5 through handlers and lifecycle hooks, ask and ask_with_timeout); logical wait-for graph of unanswered asks rebuilt from the trace; every ask that would close a cycle must panic naming every participant and nobody may be left waiting; plus a real-thread ring experiment (k actors each asking the next from a handler, all k asks lined up at the same instant on different worker threads: every outer ask returns, every actor ends, a self-ask fails)", "5/C14"),
- "C15": ("same topology generator, acyclic-in-time patterns with timeouts / cancellations / failures; every deadlock panic must be justified by a chain of unanswered asks; the real wait-for graph (verification hook) sampled at every odd virtual millisecond must equal the set of asks in flight; plus real-thread ring / line experiments (a line of asks started at the same instant must never panic; the real wait-for graph is empty after every round)", "5/C15"),
+ "C15": ("same topology generator, acyclic-in-time patterns with timeouts / cancellations / failures; every deadlock panic must be justified by a chain of unanswered asks; the real wait-for graph (verification hook) sampled at every odd virtual millisecond must equal the set of asks in flight; plus real-thread ring / line experiments (a line of asks started at the same instant must never panic; the real wait-for graph is empty after every round; A asks B, B answers and then asks A while other threads keep the graph lock busy: nobody panics)", "5/C15"),
  "C16": ("metamorphic differential: each scenario run with plain handles and with every handle as a bundle of type-erased trait objects and every operation routed through a pseudo-randomly chosen equivalent erased path; canonical traces must be equal; plus a real-thread weak-pin experiment (threads hammering is_alive / identity / clone of each erased weak handle while the only strong reference is dropped: upgrade() is None at once, the actor ends)", "5/C16"),
  "C18": ("differential across builds: the same scenarios run by harness builds with each feature subset and by a default-feature reference process; per-task canonical traces must be identical for every case without a logical ask cycle", "5/C18"),
  "C19": ("generated programs (grammar over actor shape, generics, derive/manual, handler attribute x return spelling x message kind x parameter spelling, negative programs) compiled offline against the real macros and run; observations compared with the documented decision table; plus the runtime half (on_tell_result exactly once after tell, never after ask) in the simulator", "5/C19"),
